@@ -1,7 +1,7 @@
 // Reference XML tooling from the JDK for C19: the exclusive canonicaliser (W3C xml-exc-c14n, comments omitted) and the
 // XML-DSig validator. Reads requests from stdin, one per line, answers one line each.
 //   c14n <id> <path> <base64 xml>       path = element-child indexes from the document element, e.g. "" or "0/1"
-//   validate <id> <base64 xml>          validates the (single) ds:Signature in the document using its KeyValue / X509 certificate
+//   validate <id> <n> <base64 xml>      validates the n-th ds:Signature (document order) using its KeyValue / X509 certificate
 import java.io.*;
 import java.lang.reflect.Method;
 import java.security.Key;
@@ -29,12 +29,17 @@ public class XmlRef {
     }
 
     static class AnyKeySelector extends KeySelector {
+        PublicKey fallback;
+        AnyKeySelector(PublicKey fb) { fallback = fb; }
         public KeySelectorResult select(KeyInfo ki, Purpose p, AlgorithmMethod m, XMLCryptoContext c) throws KeySelectorException {
             if (ki == null) throw new KeySelectorException("no KeyInfo");
             PublicKey found = null;
             for (Object o : ki.getContent()) {
                 try {
-                    if (o instanceof KeyValue) { found = ((KeyValue) o).getPublicKey(); break; }
+                    if (o instanceof KeyValue) {
+                        try { found = ((KeyValue) o).getPublicKey(); } catch (Exception e) { /* e.g. RFC 4050 ECDSAKeyValue: not understood by the JDK */ }
+                        if (found != null) break;
+                    }
                     if (o instanceof X509Data) {
                         for (Object x : ((X509Data) o).getContent()) {
                             if (x instanceof X509Certificate && found == null) found = ((X509Certificate) x).getPublicKey();
@@ -42,6 +47,7 @@ public class XmlRef {
                     }
                 } catch (Exception e) { throw new KeySelectorException(e); }
             }
+            if (found == null) found = fallback;
             if (found == null) throw new KeySelectorException("no key");
             final PublicKey k = found;
             return new KeySelectorResult() { public Key getKey() { return k; } };
@@ -86,16 +92,24 @@ public class XmlRef {
                     out.println(id + " OK " + Base64.getEncoder().encodeToString(res));
                 } else if (f[0].equals("validate")) {
                     DocumentBuilder db = dbf.newDocumentBuilder();
-                    Document d = db.parse(new ByteArrayInputStream(Base64.getDecoder().decode(f[2])));
+                    Document d = db.parse(new ByteArrayInputStream(Base64.getDecoder().decode(f[3])));
                     NodeList nl = d.getElementsByTagNameNS(XMLSignature.XMLNS, "Signature");
-                    if (nl.getLength() != 1) { out.println(id + " ERR signatures=" + nl.getLength()); continue; }
+                    int which = Integer.parseInt(f[2]);
+                    if (nl.getLength() <= which) { out.println(id + " ERR signatures=" + nl.getLength()); out.flush(); continue; }
                     // Id attributes referenced by same-document URIs
                     NodeList all = d.getElementsByTagName("*");
                     for (int i = 0; i < all.getLength(); i++) {
                         Element e = (Element) all.item(i);
                         if (e.hasAttribute("Id")) e.setIdAttribute("Id", true);
                     }
-                    DOMValidateContext ctx = new DOMValidateContext(new AnyKeySelector(), nl.item(0));
+                    PublicKey fb = null;
+                    if (f.length > 4 && !f[4].isEmpty()) {
+                        byte[] spki = Base64.getDecoder().decode(f[4]);
+                        for (String alg : new String[]{"RSA", "EC"}) {
+                            try { fb = java.security.KeyFactory.getInstance(alg).generatePublic(new java.security.spec.X509EncodedKeySpec(spki)); break; } catch (Exception e) { }
+                        }
+                    }
+                    DOMValidateContext ctx = new DOMValidateContext(new AnyKeySelector(fb), nl.item(which));
                     ctx.setProperty("org.jcp.xml.dsig.secureValidation", Boolean.FALSE);
                     XMLSignature sig = fac.unmarshalXMLSignature(ctx);
                     boolean ok = sig.validate(ctx);
